@@ -16,6 +16,9 @@ Decided structurally:
         config.jaxtyping_remove_typechecker_stack, `from <exception>` on the false side.
   C13.5 blame in the same context: _get_problem_arg and its callees never push/pop/replace
         the context and never go through `jaxtyped`.
+  C13.6 misuse surfaces as AnnotationError: every eval() of a symbolic axis lies in a try whose
+        NameError handler raises AnnotationError (a bare NameError would be reported by the
+        decorator as an ordinary TypeCheckError).
 Not decided: that the blamed parameter is the right one (value level).
 """
 from __future__ import annotations
@@ -43,6 +46,9 @@ def run(ctx: RuleContext):
     ctx.sub(check_stage_wiring, ctx, r)
     ctx.sub(check_cause_polarity, ctx, r)
     ctx.sub(check_blame_context, ctx, r, cg)
+    from .c01 import check_eval_discipline
+
+    ctx.sub(check_eval_discipline, ctx, "C13.6")
 
 
 # ------------------------------------------------------------------------ C13.1
